@@ -51,3 +51,31 @@ Print Assumptions C13_flush_invisible.
 Theorem C13_init_good : forall mb, 1 <= mb -> forall tab, BInv mb (binit mb tab (fs_init (Conc mb))).
 Proof. exact BInv_init. Qed.
 Print Assumptions C13_init_good.
+
+(* ---- manifests saved during or after the activity ---- *)
+From AV Require Import model.CFS_tload proofs.CFS_rt_defs proofs.CFS_line_proofs proofs.CFS_ents_inv proofs.CFS_roundtrip proofs.CFS_flush_proofs.
+
+(* Every manifest that a save returns at ANY point of ANY interleaved history loads cleanly, and the
+   loaded tree is exactly the tree of the plain byte-array filesystem after the foreground operations
+   issued so far (in their order in the history, i.e. each file holds a content it actually passed
+   through: the one at the save's linearisation point) - whatever background writes were in flight,
+   completed, failed or reordered before the save.  Side conditions as in C09 (locator table hygiene,
+   store covered by the table, recursion bound), each evaluated on every save of every case. *)
+Theorem C13_save_during_activity_round_trips : forall mb, 1 <= mb -> forall tab es st1 txt,
+  let st := bfinal mb tab (binit mb tab (fs_init (Conc mb))) es in
+  b_marshal mb tab st = (st1, Ok txt) ->
+  tab_ok_b tab = true -> in_tab_b tab (blocks mb st1) = true ->
+  deep_ok mb (List.length (inodes (Conc mb) (fsys mb st))) (fsys mb st) root_id = true ->
+  exists t, t_load tab txt = Some t /\
+            listing_T "." t = tree_listing Spec (fun b => b) (fg_final Spec (fs_init Spec) (fg_ops es)).
+Proof.
+  intros mb Hmb tab es st1 txt st Em Ht Hi Hd.
+  assert (HB0 : BInv mb (binit mb tab (fs_init (Conc mb)))) by (apply BInv_init; exact Hmb).
+  assert (HB : BInv mb st) by (apply (bg_history_invariant mb Hmb tab es); exact HB0).
+  assert (HE : EntsOK (Conc mb) (fsys mb st)) by (apply (bg_history_EntsOK mb Hmb tab _ es); apply EntsOK_init).
+  destruct (b_marshal_round_trip mb Hmb tab st st1 txt (tab_ok_b_spec tab Ht) HB HE Em (in_tab_b_spec tab _ Hi)
+              (b_marshal_ready mb Hmb tab st st1 txt HB Em Hd)) as (t & Hl & Hlist).
+  exists t. split; [exact Hl|]. rewrite Hlist. unfold st.
+  rewrite (bg_history_state mb Hmb tab es _ HB0). cbn [binit fsys]. rewrite (abs_init mb). reflexivity.
+Qed.
+Print Assumptions C13_save_during_activity_round_trips.
